@@ -254,6 +254,29 @@ def ev(expr, env, n):
     return r.v if isinstance(r, Vec) else lift(r)
 
 
+def _veq(got, exp):
+    """Equality of a value read back with the value written.  Python's == is exact between int and float, so an
+    integer beyond 2**53 that came back as a float is NOT equal; rounding tolerance is only granted between floats
+    (and between numbers of safe magnitude)."""
+    try:
+        if got == exp:
+            return True
+    except Exception:
+        return False
+    if isinstance(got, (int, float)) and isinstance(exp, (int, float)):
+        if got != got and exp != exp:
+            return True
+        big_int = any(isinstance(v, int) and not isinstance(v, bool) and abs(v) >= 2 ** 53 for v in (got, exp))
+        if big_int:
+            return False
+        return M.feq(got, exp)
+    return False
+
+
+def _seq_veq(A, B):
+    return len(A) == len(B) and all(_veq(x, y) for x, y in zip(A, B))
+
+
 # --------------------------------------------------------------------------
 class Runner:
     def __init__(self, size, ctx):
@@ -271,6 +294,8 @@ class Runner:
         self.flags = set()
         self.deleted_nonlast = set()   # names that survived a non-last deletion
         self.deleted_names = set()
+        self.big = set()               # names holding integers beyond 2**53: only copied, never fed to float arithmetic
+        self.exact = set()             # names whose model values are verbatim what was written (not recomputed by the model)
         # a second, unrelated track with the SAME feature names in the opposite column order, of another size; it is
         # only read, or written with the value already there, between the operations of the history: whatever is
         # remembered per name (column numbers, values) must be remembered per track
@@ -317,6 +342,14 @@ class Runner:
 
     def fresh(self, scalar=False):
         self.counter += 1
+        if self.counter % 9 == 4:
+            # integer-valued features of realistic magnitude (nanosecond clocks, 64-bit cell identifiers): beyond
+            # 2**53 they are exact as Python integers only
+            self.flags.add("integers_beyond_2^53")
+            self._last_fresh_big = True
+            base = 1_700_000_000_000_000_000 + 1000 * self.counter
+            return base + 1 if scalar else [base + 2 * i + 1 for i in range(self.n)]
+        self._last_fresh_big = False
         base = 1000.0 * self.counter
         return base if scalar else [base + i + 1 for i in range(self.n)]
 
@@ -331,12 +364,27 @@ class Runner:
         Operator = self.Operator
         k = op[0]
         expect_return = None
+        if self.big:
+            import re as _re
+            COPY_LIKE = ("IDENTITY", "REVERSER", "SHIFT", "SHIFT_REV", "SHIFT_CIRCULAR", "SHIFT_CIRCULAR_REV",
+                         "SHIFT_RIGHT", "SHIFT_LEFT", "SHIFT_CIRCULAR_RIGHT", "SHIFT_CIRCULAR_LEFT")
+            if k in ("unary", "binary", "scalar") and any(x in self.big for x in op[2:-1] if isinstance(x, str)):
+                self.ctx.count("arithmetic_on_integers_beyond_2^53_not_generated")
+                return "skip", None, None
+            if k in ("expr", "eval", "expr_unknown") and set(_re.findall(r"\b([abc])\b", op[1])) & self.big:
+                self.ctx.count("arithmetic_on_integers_beyond_2^53_not_generated")
+                return "skip", None, None
+            if k == "anyop" and (op[2] in self.big or (isinstance(op[3], str) and op[3] in self.big)) \
+                    and op[1] not in COPY_LIKE:
+                self.ctx.count("arithmetic_on_integers_beyond_2^53_not_generated")
+                return "skip", None, None
         if k in ("create_list", "create_scalar"):
             name = op[1]
             v = self.fresh(k == "create_scalar")
             call = lambda: tr.createAnalyticalFeature(name, v)
             if name not in model:            # documented: no-op when the name exists
                 model[name] = list(v) if isinstance(v, list) else [v] * n
+                self.exact.add(name)
                 if name in self.deleted_names:
                     self.flags.add("delete_then_recreate")
             status = "ok"
@@ -363,6 +411,7 @@ class Runner:
             call = lambda: tr.updateAnalyticalFeature(name, v)
             if name in model:
                 model[name] = list(v) if isinstance(v, list) else [v] * n
+                self.exact.add(name)
                 status = "ok"
             else:
                 status = "reject"
@@ -375,6 +424,7 @@ class Runner:
             if name not in model and name in self.deleted_names:
                 self.flags.add("delete_then_recreate")
             model[name] = list(v) if isinstance(v, list) else [v] * n
+            self.exact.add(name)
             status = "ok"
         elif k in ("set_fn", "add_af"):
             name = op[1]
@@ -390,6 +440,7 @@ class Runner:
             if name not in model and name in self.deleted_names:
                 self.flags.add("delete_then_recreate")
             model[name] = [base + i + 1 for i in range(n)]
+            self.exact.add(name)
             status = "ok"
         elif k == "set_obs":
             name = op[1]
@@ -421,6 +472,7 @@ class Runner:
             if i1 == o:
                 self.flags.add("inplace_operator")
             model[o] = UNARY[opn](list(model[i1]))
+            self.exact.discard(o)
             status = "ok"
         elif k == "binary":
             _, opn, i1, i2, o = op
@@ -432,6 +484,7 @@ class Runner:
             if o not in model and o in self.deleted_names:
                 self.flags.add("delete_then_recreate")
             model[o] = [BINARY[opn](x, y) for x, y in zip(model[i1], model[i2])]
+            self.exact.discard(o)
             status = "ok"
         elif k == "scalar":
             _, opn, i1, o = op
@@ -444,6 +497,7 @@ class Runner:
             if o not in model and o in self.deleted_names:
                 self.flags.add("delete_then_recreate")
             model[o] = [SCALAR[opn](x, kk) for x in model[i1]]
+            self.exact.discard(o)
             status = "ok"
         elif k == "expr_unknown":
             e = op[1]
@@ -513,6 +567,7 @@ class Runner:
                     if lhs not in model and lhs in self.deleted_names:
                         self.flags.add("delete_then_recreate")
                     model[lhs] = list(val)
+                    self.exact.discard(lhs)
             status = "ok"
         else:
             raise M.HarnessError("unknown op %r" % (op,))
@@ -536,12 +591,13 @@ class Runner:
                         "n_values": len(o.features), "listed": listed}
         for name, exp in model.items():
             got = M.call(tr.getAnalyticalFeature, name)
-            if M.is_raised(got) or not M.seq_eq(got, exp):
+            same = (lambda A, B: _seq_veq(A, B)) if name in self.exact else (lambda A, B: M.seq_eq(A, B))
+            if M.is_raised(got) or not same(got, exp):
                 return {"what": "reading a feature does not return the values last written under that name",
                         "name": name, "got": got, "expected": exp, "listed": listed}
             j = n - 1
             g1 = M.call(lambda: tr[name, j])
-            if M.is_raised(g1) or not M.feq(g1, exp[j]):
+            if M.is_raised(g1) or not (_veq(g1, exp[j]) if name in self.exact else M.feq(g1, exp[j])):
                 return {"what": "track[name, i] disagrees with the values last written", "name": name, "i": j,
                         "got": g1, "expected": exp[j]}
             if name in self.deleted_nonlast:
@@ -576,7 +632,8 @@ class Runner:
                     if target in listed:
                         got = M.call(self.tr.getAnalyticalFeature, target)
                         if not M.is_raised(got):
-                            self.model[target] = [float(v) for v in got]
+                            self.model[target] = list(got)
+                            self.exact.add(target)
                     elif target in self.model:
                         del self.model[target]
         elif status == "from_return":
@@ -594,18 +651,20 @@ class Runner:
                     got = M.call(self.tr.getAnalyticalFeature, out)
                     if M.is_raised(got):
                         return {"what": "output feature unreadable after an operator failed", "op": list(op), "raised": got}
-                    self.model[out] = [float(v) for v in got]
+                    self.model[out] = list(got)
+                    self.exact.add(out)
                 elif out in self.model:
                     return {"what": "an operator that failed removed its (existing) output feature", "op": list(op)}
             else:
                 vals = None
                 if isinstance(r, (list, tuple)) and len(r) == self.n:
                     try:
-                        vals = [float(v) for v in r]
+                        vals = [v if isinstance(v, int) and not isinstance(v, bool) else float(v) for v in r]
                     except (TypeError, ValueError):
                         vals = None
                 if vals is not None:
                     self.model[out] = vals          # what the call says it wrote
+                    self.exact.add(out)
                     self.ctx.monitor("anyop.returned_list_is_what_is_read")
                 else:
                     # some void operators return nothing: then only alignment and "nothing else moved" are judged
@@ -614,7 +673,8 @@ class Runner:
                     if M.is_raised(got):
                         return {"what": "output feature unreadable after an operator application", "op": list(op),
                                 "raised": got}
-                    self.model[out] = [float(v) for v in got]
+                    self.model[out] = list(got)
+                    self.exact.add(out)
         elif status == "reject":
             self.flags.add("rejection")
             if not M.is_raised(r) or r.type != "AnalyticalFeatureError":
@@ -631,6 +691,8 @@ class Runner:
                 if not ok:
                     return {"what": "operation returned other values than the model", "op": list(op), "got": r,
                             "expected": expect_return}
+        self.big = {nm for nm, vals in self.model.items()
+                    if any(isinstance(v, int) and not isinstance(v, bool) and abs(v) >= 2 ** 53 for v in vals)}
         p = self.compare()
         if p:
             p["after_op"] = list(op)
